@@ -216,8 +216,9 @@ fn family<T: UniPar>(checks: &mut Vec<Box<dyn Check>>, q: bool) {
         checks.push(par::<T>(a, k, if q { 5 } else { 6 }, 0));
         checks.push(par::<T>(a, 3, if q { 3 } else { 4 }, 2));
         if !q {
-            // 731 split trees over 7 items, 3-letter alphabet
+            // 731 split trees over 7 items, 3-letter alphabet; 2 950 over 8 items, 2-letter alphabet
             checks.push(par::<T>(a, 3, 7, 0));
+            checks.push(par::<T>(a, 2, 8, 0));
         }
     }
 }
